@@ -839,6 +839,12 @@ for k in fails[:5]:
                   failing_input_found=False)
 samples.append({"path_reverse": {"in": prev_cases[-1][0], "out": prev_cases[-1][3][0] if prev_cases[-1][3] else None}})
 
+# ---- the glue model of the public functions (Model files added later, see manifest text) tied to the library on every run:
+#      inputs generated here, the library run on them, the model evaluated on the same inputs by vm_compute inside coqc
+import ties.tie_C18 as _tie_glue  # noqa: E402
+_tie_n = _tie_glue.run(chk, arim, rng, Q)
+chk.cov["glue_model_tie_comparisons"] = int(_tie_n or 0)
+
 chk.finish(
     evaluations=evaluations,
     distinct_nontrivial=len(nontrivial),
